@@ -185,17 +185,23 @@ def rule_q1_clear(ctx, facts):
         return
     decs = []
     ok_defs = True
+    all_loops = [loop_blocks(cl, be) for be in back_edges(cl)]
+    resets = []
     for pt, f in ev.def_forms(D):
         if f is TOP:
             ok_defs = False
         elif f.is_const() and f.c == 0:
+            if any(pt[0] in L for L in all_loops):
+                resets.append(pt)   # the tally is reset while the walk is in progress: removals counted so far are forgotten
             continue
         elif f == Aff.sym(("phi", D)) + Aff.const(-1):
             decs.append(pt)
         else:
             ok_defs = False
-    ctx.inst("Q1", cl, "delta is 0 minus one per entry", acs[0].span, ok_defs and len(decs) >= 2,
-             "delta starts at 0 and only ever decrements by one (%d sites)" % len(decs) if ok_defs and decs else "delta is updated by something other than `-= 1`")
+    ctx.inst("Q1", cl, "delta is 0 minus one per entry", cl.span_at(resets[0]) if resets else acs[0].span, ok_defs and len(decs) >= 2 and not resets,
+             "delta starts at 0 before the walk and only ever decrements by one (%d sites)" % len(decs) if ok_defs and decs and not resets else
+             ("the removal tally is reset to 0 inside the walk at %s: entries already removed (e.g. before following a forwarding marker) are never "
+              "subtracted from the count" % cl.span_at(resets[0]) if resets else "delta is updated by something other than `-= 1`"))
     # every cycle of a node-walking inner loop decrements; the list-arm head is counted once
     n_loops = 0
     for be in back_edges(cl):
